@@ -29,8 +29,10 @@ fn child_load() {
 }
 
 fn run_child(d: &PathBuf) -> (bool, String) {
+    // (the name of the child test: `child_load` when this file is an integration test, its module path when it is compiled into the crate)
+    let child = match module_path!().split_once("::") { Some((_, rest)) => format!("{}::child_load", rest), None => "child_load".to_string() };
     let out = Command::new(std::env::current_exe().unwrap())
-        .args(["child_load", "--exact", "--nocapture", "--test-threads=1"])
+        .args([child.as_str(), "--exact", "--nocapture", "--test-threads=1"])
         .env("STAM_DEMO_DIR", d.to_str().unwrap())
         .output()
         .expect("spawning child");
